@@ -42,6 +42,7 @@ pub fn base_cfg(prop: &'static str, label: String, cb: usize, hb: usize, events:
         poison: false,
         prefilled: vec![],
         deprecated_ctor: false,
+        refine: false,
         digest: None,
     }
 }
@@ -61,12 +62,21 @@ pub fn caps(tier: &str) -> Caps {
     }
 }
 
-pub fn run_raw(rep: &mut Report, cfg: Cfg, caps: &Caps, seed: u64) {
+/// small configurations get the behaviour-refined key (hidden state added by a change shows up)
+fn auto_refine(cfg: &mut Cfg) {
+    if cfg.cb <= 3 && cfg.hb <= 4 && cfg.events.len() <= 24 && cfg.digest.is_none() && cfg.prefilled.is_empty() {
+        cfg.refine = true;
+    }
+}
+
+pub fn run_raw(rep: &mut Report, mut cfg: Cfg, caps: &Caps, seed: u64) {
+    auto_refine(&mut cfg);
     let m = SessModel::<RawCommand<'static>>::new(cfg);
     run_model(rep, &m, caps, seed);
 }
 
 pub fn run_cmd4(rep: &mut Report, mut cfg: Cfg, caps: &Caps, seed: u64) {
+    auto_refine(&mut cfg);
     cfg.names = cmd4_names();
     let m = SessModel::<Cmd4>::new(cfg);
     run_model(rep, &m, caps, seed);
